@@ -282,4 +282,4 @@ package getty
 //@   requires ghost.sent == 0 && !ghost.regrm_sent && !ghost.regtm_sent && sessionManager != nil && session != nil
 //@   ensures announce-tm: ghost.regtm_sent && ghost.sent >= 1
 //@   ensures announce-rm: ghost.has_rm_resources ==> ghost.regrm_sent
-//@   ensures unannounced-session-is-not-kept: called("SendAsyncRequest#1") && callres("SendAsyncRequest#1", 0) != nil ==> !haskey(syncmap(sessionManager, "allSessions"), session)
+//@   at return: assert unannounced-session-is-not-kept: localor("err", nil) != nil ==> !haskey(syncmap(sessionManager, "allSessions"), session)
